@@ -118,15 +118,17 @@ def run(ctx):
     if isinstance(m, ast.Call) and isinstance(m.func, ast.Attribute) and m.func.attr in ('match', 'fullmatch') and len(m.args) == 1 and is_last(m.args[0]) \
         and re_leaves(m.func.value) == {'MODULE_RE'}:
       return ('selector_match', True) if neg else 'selector_match'
-    if isinstance(e, ast.BoolOp) and isinstance(e.op, ast.Or) and len(e.values) == 2:
-      a, b = [v.args[0] if isinstance(v, ast.Call) and u(v.func) == 'bool' and len(v.args) == 1 else v for v in e.values]
-      if (u(a) == 'scoped' and only_one(b)) or (u(b) == 'scoped' and only_one(a)):
-        return 'scoped_ok'
+    if u(e) == 'scoped':
+      return 'scoped'
+    if only_one(e):
+      return 'one'
+    if is_before_last(e):
+      return ('one', True)        # a non-empty list of scope components: more than one component
     return None
   labels = [('inner whitespace rejected (raw text == joined tokens)', 'raw_eq'),
             ('every scope component matches the scope regex (identifier; dotted only where periods are allowed)', 'scopes_match'),
             ('the last component matches the selector regex MODULE_RE', 'selector_match'),
-            ('scopes only where allowed', 'scoped_ok')]
+            ('scopes only where allowed', 'scoped or one')]
   for n in rets:
     miss = facts_imply(facts[n.id], labels, atom)
     ctx.check(not miss, 'C03.selector-guard', con,
